@@ -6,7 +6,8 @@ RULE = ("differential corpus: every deterministic public function family {all st
         "SHA-2, 3 HMACs, BLAKE2b (plain/keyed/salt+personal/multipart), SipHash x2, Poly1305 (one-shot, multipart, unaligned), kdf, HKDF, 9 "
         "AEAD/box constructions in combined/detached/extra forms incl. failing decrypts, X25519/box/kx, Ed25519 sign/verify/ph/convert, "
         "edwards25519+ristretto255 point and scalar ops, from_uniform/from_string, Argon2i/id at 9 memory sizes, scrypt, string verify, "
-        "secretstream, utils, codecs, padding, verify_n, deterministic RNG} at 44 block-boundary lengths (0..4097) x AD lengths; one process "
+        "secretstream, utils, codecs, padding, verify_n, deterministic RNG} at 44 block-boundary lengths (0..4097) x AD lengths, plus the Poly1305 "
+        "boundary family (homogeneous ff/fb/00-led block runs with r = 1..5, and the backward-built accumulator-target / special-key cases shared with C04); one process "
         "per configuration: native x {all, -avx512f, -avx2, -avx, -sse41, -ssse3, -sse3, none, -aesni/pclmul}, noasm x 4, noti x 3, generic "
         "(= reference); every family digest (return codes + defined outputs of every case) must equal the reference configuration's; on "
         "mismatch the first differing case is located by re-running both with per-case output. AES-256-GCM: is_available == pclmul&aesni&avx "
@@ -36,6 +37,8 @@ def digests(res):
 
 
 def main(tier):
+    from vf.props import c04 as _c04
+    _c04.poly_cases()
     t0 = time.time()
     ref = os.path.join(common.VERIF, "ref"); h = os.path.join(common.VERIF, "harness")
     srcs = [os.path.join(h, "c10.c"), os.path.join(ref, "ref_hash.c"), os.path.join(ref, "ref_stream.c")]
